@@ -2,8 +2,11 @@
 (* Reception of application packets by one node (network/p2p.go PeerToPeer.onPacket with the
    duplicate filter network/pool.go PacketPool), property C33.
 
-   The node ("self") has connected peers, each with an authenticated id, role flags
-   (seed / root = validator) and a connection type.  A packet arrives through one of the
+   The node ("self") has connected peers, each with an authenticated id, a connection type and TWO
+   role values: the role the peer CLAIMED in its query (Peer.RecvRole) and the RESOLVED role
+   (Peer.Role) = the claimed flags that the node's own role sets allow: resolveRole drops the root
+   flag when the node's validator (root) set is not empty and does not contain the peer (same for
+   seed).  Only the resolved role authorizes anything.  A packet arrives through one of the
    peers ("via") and carries the originator id src, a destination class dest
    (any | root | seed | peer), a ttl (0 = flood on, otherwise one hop) and a body; the packet
    hash covers all of these (header + payload), so the packet identity for the duplicate
@@ -24,7 +27,8 @@ CONSTANTS Peers,        \* connected peers, e.g. {"p1","p2","p3"}
           Ttls,         \* subset of {0, 1}
           Bodies,
           Protos,       \* subset of {"ok","unk"}
-          RoleCfgs,     \* set of functions Peers -> SUBSET {"seed","root"}
+          RoleCfgs,     \* claimed roles: set of functions Peers -> SUBSET {"seed","root"}
+          AllowCfgs,    \* the node's validator (root) set: set of subsets of Peers ({} = no restriction)
           TypeCfgs,     \* set of functions Peers -> {"none","parent","children","friend","other"}
           NB, LB,       \* pool geometry
           MaxOps,
@@ -32,13 +36,15 @@ CONSTANTS Peers,        \* connected peers, e.g. {"p1","p2","p3"}
 
 Window == (NB - 1) * LB
 
-VARIABLES role, ctype,  \* configuration, chosen initially
+VARIABLES role, allow, ctype,  \* configuration, chosen initially (role = claimed role, allow = validator set)
           closed,       \* peers closed by the node
           buckets, alloc, blen, cur,   \* PacketPool (alloc[i] = FALSE: bucket i was never allocated)
           log,          \* flooded packet ids accepted by the pool, in order
           nops, hist
-vars == <<role, ctype, closed, buckets, alloc, blen, cur, log, nops, hist>>
+vars == <<role, allow, ctype, closed, buckets, alloc, blen, cur, log, nops, hist>>
 
+\* PeerToPeer.resolveRole(claimed, id, onlyUnSet = TRUE) as applied by the query handlers
+Resolved(p) == IF allow # {} /\ p \notin allow THEN role[p] \ {"root"} ELSE role[p]
 Pkt(src, dest, ttl, body, proto) == [src |-> src, dest |-> dest, ttl |-> ttl, body |-> body, proto |-> proto]
 IsOneHop(k) == k.ttl # 0 \/ k.dest = "peer"
 IsBroadcast(k) == k.dest = "any" /\ k.ttl = 0
@@ -69,18 +75,19 @@ Verdict(k, via) ==
     [] ctype[via] = "none" -> "drop:conntype"
     [] k.src = "self" -> "drop:self"
     [] IsOneHop(k) /\ via # k.src -> "drop:onehop-not-source"
-    [] IsBroadcast(k) /\ via = k.src /\ "root" \notin role[via] -> "drop:origin-not-root"
+    [] IsBroadcast(k) /\ via = k.src /\ "root" \notin Resolved(via) -> "drop:origin-not-root"
     [] OTHER -> "pass"
 
 Log(e) == /\ nops' = nops + 1
           /\ hist' = IF RecordHist THEN Append(hist, e) ELSE hist
 
-Init == /\ role \in RoleCfgs /\ ctype \in TypeCfgs
+Init == /\ role \in RoleCfgs /\ allow \in AllowCfgs /\ ctype \in TypeCfgs
         /\ closed = {}
         /\ buckets = [i \in 0..(NB - 1) |-> {}] /\ alloc = [i \in 0..(NB - 1) |-> i = 0]
         /\ blen = [i \in 0..(NB - 1) |-> 0] /\ cur = 0
         /\ log = <<>> /\ nops = 0
-        /\ hist = IF RecordHist THEN <<[op |-> "cfg", role |-> role, ctype |-> ctype, nb |-> NB, lb |-> LB]>> ELSE <<>>
+        /\ hist = IF RecordHist THEN <<[op |-> "cfg", role |-> role, allow |-> allow, resolved |-> [p \in Peers |-> Resolved(p)],
+                                      ctype |-> ctype, nb |-> NB, lb |-> LB]>> ELSE <<>>
 
 Result(k, via) ==
   LET v == Verdict(k, via)
@@ -96,7 +103,7 @@ OnPacket(k, via) ==
      IN /\ closed' = IF v = "close:proto" THEN closed \cup {via} ELSE closed
         /\ IF put THEN PutNew(k) /\ log' = Append(log, k)
            ELSE UNCHANGED <<buckets, alloc, blen, cur, log>>
-        /\ UNCHANGED <<role, ctype>>
+        /\ UNCHANGED <<role, allow, ctype>>
         /\ Log([op |-> "pkt", via |-> via, src |-> k.src, dest |-> k.dest, ttl |-> k.ttl, body |-> k.body,
                 proto |-> k.proto, res |-> res])
 
@@ -128,8 +135,10 @@ AtMostOnce(k, via) == (Result(k, via) = "deliver" /\ ~IsOneHop(k) /\ Seen(k)) =>
 RefusedWasSeen(k, via) == Result(k, via) = "drop:duplicate" => Seen(k)
 \* one-hop packets are accepted only from their originating peer
 OneHopFromSource(k, via) == (Result(k, via) = "deliver" /\ IsOneHop(k)) => via = k.src
-\* a broadcast received directly from its originator is accepted only if that peer holds the root (validator) role
-OriginAuthorized(k, via) == (Result(k, via) = "deliver" /\ IsBroadcast(k) /\ via = k.src) => "root" \in role[via]
+\* a broadcast received directly from its originator is accepted only if that peer holds the root (validator)
+\* role -- the RESOLVED one: claimed AND, when the node has a validator set, a member of it
+OriginAuthorized(k, via) == (Result(k, via) = "deliver" /\ IsBroadcast(k) /\ via = k.src) =>
+                              ("root" \in role[via] /\ (allow = {} \/ via \in allow))
 \* never from a peer without a determined connection type, never with the node itself as originator,
 \* never on a protocol the peer does not speak, never through a closed peer
 Admissible(k, via) == Result(k, via) = "deliver" => (ctype[via] # "none" /\ k.src # "self" /\ k.proto = "ok" /\ via \notin closed)
